@@ -15,8 +15,12 @@ TInit == tid \in 1..NT /\ l = 1
 TTable ==
   /\ l = 1 /\ l' = 2 /\ UNCHANGED tid /\ Traces[tid].fmt = "table"
   /\ Chk("ShieldingTableSearchCoversItsAxis", Traces[tid].obs.bound = Traces[tid].obs.nodes - 2)
+(* a derived quantity that calls a helper with arguments named exactly like the helper's parameters passes them in the prototype's order *)
+TArgOrder ==
+  /\ l = 1 /\ l' = 2 /\ UNCHANGED tid /\ Traces[tid].fmt = "argorder"
+  /\ Chk("HelperArgumentsInPrototypeOrder", Traces[tid].obs.in_order)
 TCase ==
-  /\ l = 1 /\ l' = 2 /\ UNCHANGED tid /\ Traces[tid].fmt # "table"
+  /\ l = 1 /\ l' = 2 /\ UNCHANGED tid /\ Traces[tid].fmt \notin {"table", "argorder"}
   /\ LET t == Traces[tid]
          law == Law(t.fmt, t.code, t.a, t.b, t.c, t.zb, t.zc, t.sh)
      IN IF law = <<"refused">>
@@ -25,7 +29,7 @@ TCase ==
                /\ Chk("Rendered", ~t.obs.refused)
                /\ Chk("ValidC", t.obs.valid)
                /\ Chk("Law", t.obs.tree = law)
-TSpec == TInit /\ [][TCase \/ TTable]_<<tid, l>>
+TSpec == TInit /\ [][TCase \/ TTable \/ TArgOrder]_<<tid, l>>
 Track == TLCSet(tid, IF l > TLCGet(tid) THEN l ELSE TLCGet(tid))
 Verdicts == \A i \in 1..NT : PrintT(<<"VERDICT", Traces[i].tid, TLCGet(i), 2>>)
 =============================================================================
